@@ -162,11 +162,17 @@ type Cfg struct {
 	Sid      uint16
 	Validate bool
 	Equip    bool
+	// Trace: hsms.WithTraceTraffic (logger = discard sink). Read by dispatchFrame; no effect on what
+	// the responder answers, so it is not a parameter of the model: the same case line must hold.
+	Trace bool
 }
 
 func (c Cfg) M() string {
 	return fmt.Sprintf("%s %d %s %s", b01(c.Active), c.Sid, b01(c.Validate), b01(c.Equip))
 }
+
+// Tag is the part of the configuration that is not a model parameter (for failure reports).
+func (c Cfg) Tag() string { return " ## trace=" + b01(c.Trace) }
 
 func b01(b bool) string {
 	if b {
@@ -202,7 +208,7 @@ func newRigHooked(c Cfg, hold *holdCtl) (*Rig, error) {
 		hsms.WithT3(120 * time.Second), hsms.WithT6(120 * time.Second), hsms.WithT7(120 * time.Second),
 		hsms.WithT8(10 * time.Second), hsms.WithLinktestInterval(0),
 		hsms.WithT5(20 * time.Millisecond), hsms.WithReconnectBackoff(time.Millisecond, 1.0),
-		hsms.WithSessionID(c.Sid), hsms.WithSessionIDValidation(c.Validate),
+		hsms.WithSessionID(c.Sid), hsms.WithSessionIDValidation(c.Validate), hsms.WithTraceTraffic(c.Trace),
 		hsms.WithCloseTimeout(3 * time.Second), hsms.WithLogger(nullLogger{}),
 	}
 	opts := []hsmsss.Option{}
